@@ -205,6 +205,9 @@ func (in *Interp) decide(cond *Term) bool {
 	}
 	res, m2 := ex.s.Check(other, in.vars(), true)
 	ex.e.noteFeas()
+	if res == Unknown {
+		res, m2 = ex.s.oneShot(other, in.vars(), 2*in.cfg.TimeoutMs/1000+10)
+	}
 	switch res {
 	case Sat:
 		ex.enqueue(append(ex.trace, Dec{K: 'b', B: !mv}), m2)
@@ -270,6 +273,10 @@ func (in *Interp) assertProp(c *Term, label string) {
 		return
 	}
 	res, m2 := ex.s.Check(tb.Not(c), in.vars(), true)
+	if res == Unknown {
+		// undecided within the incremental solver's timeout: one non-incremental run with full preprocessing
+		res, m2 = ex.s.oneShot(tb.Not(c), in.vars(), 4*in.cfg.TimeoutMs/1000+10)
+	}
 	switch res {
 	case Unsat:
 		e.noteAssert(label, "unsat")
